@@ -48,6 +48,8 @@ func main() {
 		r := c.Run(os.Args[4], env)
 		b, _ := json.MarshalIndent(r, "", " ")
 		fmt.Fprintln(diag, string(b))
+	case "diff":
+		debugDiff(os.Args[2])
 	case "replay":
 		b, err := os.ReadFile(os.Args[2])
 		if err != nil {
